@@ -208,4 +208,12 @@ theorem runPairs_unforced (P : Params) : ∀ fuel s x, x ∈ (runPairs P fuel s)
       · exact ih _ x h
     · cases hx
 
+/-- executable: the B flags of the packets a one-object session returns until something that is not a packet -/
+def sessionFlags : Nat → Session → List Bool
+  | 0, _ => []
+  | k + 1, x =>
+    match x.read with
+    | (.pkt p, x') => p.closeObject :: sessionFlags k x'
+    | _ => []
+
 end Flute.BencShape
